@@ -776,9 +776,11 @@ func init() {
 			if !ok {
 				panic(unsupported{fmt.Sprintf("json.Unmarshal type mismatch %v vs %v", tok.t, pt.Elem())})
 			}
-			_, p := ptrParts(src)
-			src = *deref(fr, src, "json snapshot")
-			_ = p
+			pr, p := ptrParts(src)
+			if p == nil || !EX.decide(pr) {
+				return iface{} // JSON null: the destination is left as it is
+			}
+			src = *p
 			st = sp.Elem()
 		}
 		target := deref(fr, dst.v, "json.Unmarshal target")
